@@ -96,6 +96,43 @@ def rs_floor(P, key):
     return lo
 
 
+def entry_states(P):
+    """handle states (ready_state values) with which K5 enters each function: {key: (lo, hi)}"""
+    import typestate
+    K = typestate.scan(P)[0]
+    ent = {}
+    for mk in K.memo:
+        if isinstance(mk, tuple) and len(mk) == 3:
+            for (_gi, en) in mk[1]:
+                ent.setdefault(mk[0], set()).add(en[0])
+    return {k: (min(v), max(v)) for k, v in ent.items() if v}
+
+
+def set_entry_rs(F, env, rs):
+    from absint import V
+    for p in F.params:
+        if p.get('record') == 'OggVorbis_File':
+            env[f'v{p["id"]}->ready_state'] = V(rs[0], rs[1])
+
+
+def apply_rs_floor(P, F, env, e, rs):
+    """after call e: the handle state is not below what the callee's closure stores, nor below the entry state"""
+    from absint import V
+    lb = rs[0]
+    for t in P.call_targets(F, e):
+        f_ = rs_floor(P, t)
+        if f_ is not None:
+            lb = min(lb, f_)
+    for p in F.params:
+        if p.get('record') == 'OggVorbis_File':
+            k_ = f'v{p["id"]}->ready_state'
+            cur = env.get(k_)
+            if not isinstance(cur, V):
+                env[k_] = V(lb, 4)
+            elif cur.lo < lb or cur.hi > 4:
+                env[k_] = cur.copy(lo=max(cur.lo, lb), hi=min(cur.hi, 4))
+
+
 def _analyse_pages(P, F, pv, writers, submitters, entry_rs=None):
     """K2 run over F: flag ('S', page var, stream key) = that page is in that stream. -> (A, hooks, pagein call nodes)"""
     def fetch(A, env, e):
@@ -370,4 +407,203 @@ def packet_filled(chk, P, rule):
                    f'`{F.s(e)[:50]}`: {nm} was filled by a positive packetout/packetpeek on every path' if ok else
                    f'`{F.s(e)[:50]}` is reachable on a path on which no packetout/packetpeek has returned a positive value for {nm} '
                    'since it was declared: the field holds stack garbage')
+    return n
+
+
+PAGE_READERS = ('ogg_page_serialno', 'ogg_page_granulepos', 'ogg_page_bos', 'ogg_page_eos', 'ogg_page_continued',
+                'ogg_page_pageno', 'ogg_page_packets', 'ogg_page_version', 'ogg_stream_pagein')
+
+
+def page_valid(chk, P, E, rule):
+    chk.rule(rule, 'a page is looked at only while it is the page libogg last found: an ogg_page is a set of pointers into the '
+             'ogg_sync buffer.  In vorbisfile.c a page object is VALID from a fetch that reported a page (ogg_sync_pageseek > 0, '
+             'or a helper that takes the page by pointer and returned >= 0 -- helpers are verified, not assumed: each returns '
+             'non-negative only with the page valid) until the next call that may touch the sync buffer (K3: may write '
+             'vf->oy -- a further fetch that finds nothing, _get_data, _seek_helper).  Every ogg_page_* accessor call, every '
+             'ogg_stream_pagein and every non-negative return of such a helper is reached only with the page valid (K4 forked on '
+             'the result class of each fetch; og->header_len is followed through memset and fetch so that the "re-read if we no '
+             'longer hold it" test is understood).  After a failed look-ahead the buffer may have been compacted or reallocated: '
+             'the old page dangles')
+    import absint
+    from absint import V
+    import k6
+    oy_writers = {k for k, sm in E.summ.items() if any(r == 'OggVorbis_File' and f == 'oy' for (o, r, f) in sm['stores'])}
+    fns = [F for F in P.functions() if F.file.endswith('vorbisfile.c')]
+    fetchers = {}       # key -> page param index: returns >= 0 only with the page valid (verified below)
+    ent = entry_states(P)
+
+    def analyse(F, pv):
+        uses, rets = {}, []
+
+        def pkey(vid):
+            return f'v{vid}->header_len' if any(p['id'] == vid for p in F.params) else f'v{vid}.header_len'
+
+        class H(k2.Flags):
+            def on_entry(self, A, env):
+                # a page handed in by the caller is valid by the caller's obligation
+                env['$flags'] = frozenset(('V', p['id']) for p in F.params if p['id'] in pv)
+                for p in F.params:
+                    if p['id'] in pv:
+                        env[pkey(p['id'])] = V(1, 2 ** 31 - 1)
+                if F.static and P.key(F) in ent:
+                    set_entry_rs(F, env, ent[P.key(F)])
+                return env
+
+            def on_call(self, A, env, e, avals):
+                env['$prehl'] = (e, {vid: env.get(pkey(vid)) for vid in pv})
+                return None
+
+            def on_node(self, A, env, e, v):
+                fl = env.get('$flags', frozenset())
+                nd = A.ex[e]
+                if nd['k'] == 'call':
+                    nm = nd['callee'].get('d')
+                    args = nd.get('c', [])
+                    if nm in PAGE_READERS and A.final:
+                        i_ = 1 if nm == 'ogg_stream_pagein' else 0
+                        if i_ < len(args):
+                            v_ = _addr_of_var(F, args[i_])
+                            if v_ in pv:
+                                uses.setdefault((e, v_), set()).add(('V', v_) in fl)
+                    is_fetch = nm == 'ogg_sync_pageseek' or any(t in fetchers for t in P.call_targets(F, e))
+                    if not is_fetch:
+                        if nm == 'memset' and args and _addr_of_var(F, args[0]) in pv and common.const_val(F, args[1]) == 0:
+                            v_ = _addr_of_var(F, args[0])
+                            fl = fl - {('V', v_)}
+                            env[pkey(v_)] = V(0, 0)
+                        elif any(t in oy_writers for t in P.call_targets(F, e)) or nm in ('ogg_sync_reset', 'ogg_sync_buffer', 'ogg_sync_wrote', 'ogg_sync_clear'):
+                            fl = frozenset(x for x in fl if x[0] != 'V')
+                elif nd['k'] == 'assign' and nd['op'] == '=':
+                    l = A.ex[F.strip_casts(nd['c'][0])]
+                    if l['k'] == 'ref' and l['decl'].get('id') in pv:
+                        src = _addr_of_var(F, nd['c'][1])
+                        if src in pv and ('V', src) in fl:
+                            fl = fl | {('V', l['decl']['id'])}
+                        else:
+                            fl = fl - {('V', l['decl']['id'])}
+                if nd['k'] == 'call' and F.static and P.key(F) in ent:
+                    apply_rs_floor(P, F, env, e, ent[P.key(F)])
+                env['$flags'] = fl
+
+            def fork(self, A, env, e):
+                nd = A.ex[e]
+                if nd['k'] != 'call':
+                    return None
+                nm = nd['callee'].get('d')
+                args = nd.get('c', [])
+                pi = None
+                if nm == 'ogg_sync_pageseek':
+                    pi, pos_cls, neg_cls = 1, 'pos', 'nonpos'
+                else:
+                    for t in P.call_targets(F, e):
+                        if t in fetchers:
+                            pi, pos_cls, neg_cls = fetchers[t], 'nonneg', 'neg'
+                if pi is None or pi >= len(args):
+                    return None
+                v_ = _addr_of_var(F, args[pi])
+                if v_ not in pv:
+                    return None
+                outs = []
+                for cls, ok in ((neg_cls, False), (pos_cls, True)):
+                    e2 = env.copy()
+                    tmp = dict(e2.get('$tmp') or {})
+                    cur = tmp.get(e)
+                    if cls == 'nonneg':
+                        nv = V(0, 2 ** 63 - 1)
+                    elif cls == 'neg':
+                        nv = V(-2 ** 63, -1)
+                    else:
+                        nv = k6.class_value(cls, (-2 ** 63, 2 ** 63 - 1))
+                    if cur is not None:
+                        nv = cur.copy(lo=max(cur.lo, nv.lo), hi=min(cur.hi, nv.hi))
+                        if nv.is_bottom():
+                            continue
+                    tmp[e] = nv
+                    e2['$tmp'] = tmp
+                    fl = frozenset(x for x in e2.get('$flags', frozenset()) if x[0] != 'V')      # the sync buffer was touched
+                    if ok:
+                        fl = fl | {('V', v_)}
+                        e2[pkey(v_)] = V(1, 2 ** 31 - 1)
+                    else:
+                        # libogg writes the page object only when it found a page: the fields keep their values
+                        pre = env.get('$prehl')
+                        if pre and pre[0] == e and pre[1].get(v_) is not None:
+                            e2[pkey(v_)] = pre[1][v_]
+                    e2['$flags'] = fl
+                    outs.append(e2)
+                return outs
+        h = H([])
+
+        def part(A_, env):
+            z = []
+            for vid in sorted(pv):
+                x = env.get(pkey(vid))
+                z.append('Z' if isinstance(x, V) and x.const() == 0 else 'N' if isinstance(x, V) and x.lo >= 1 else '?')
+            return (env.get('$flags', frozenset()), tuple(z))
+        A = absint.Analyzer(P, F, hooks=h, partition=part)
+        A.run()
+        for (e, env, v) in A.ret_states:
+            rets.append((e, env.get('$flags', frozenset()), v))
+        return uses, rets
+
+    # helpers that take the page by pointer and fetch into it: verified to return >= 0 only with the page valid
+    cand = []
+    for F in fns:
+        pp = [(i, p) for i, p in enumerate(F.params) if PAGE_T in p.get('t', '') and '*' in p.get('t', '')]
+        if pp and F.d.get('ret_t', '').strip() not in ('void', ''):
+            cand.append((F, pp[0][0], pp[0][1]['id']))
+    n = 0
+    results = {}
+    for _round in range(3):
+        changed = False
+        for F, pi, pid in cand:
+            if not any(F.ex[c]['callee'].get('d') == 'ogg_sync_pageseek' or any(t in fetchers for t in P.call_targets(F, c)) for c in F.calls()):
+                continue
+            pv = _page_vars(F)
+            uses, rets = analyse(F, pv)
+            results[P.key(F)] = (F, uses, rets, pid)
+            good = all(('V', pid) in fl for (e, fl, v) in rets if v is not None and v.hi >= 0 and not (v.lo == v.hi == 0 and False))
+            has_nonneg = any(v is not None and v.hi >= 0 for (e, fl, v) in rets)
+            if has_nonneg and P.key(F) not in fetchers and (good or F.name != 'ogg_sync_pageseek'):
+                # the helper is *used* as a fetcher by its callers either way; whether it keeps the contract is an obligation below
+                fetchers[P.key(F)] = pi
+                changed = True
+        if not changed:
+            break
+    for k, (F, uses, rets, pid) in sorted(results.items()):
+        if k not in fetchers:
+            continue
+        # only helpers whose int result is an offset/ordinal (>= 0 means "a page is in *og"): those that fetch on every nonneg path
+        bad = [(e, v) for (e, fl, v) in rets if v is not None and v.hi >= 0 and v.lo >= 0 and ('V', pid) not in fl]
+        n += 1
+        chk.ob(rule, F.name, 'non-negative-return-hands-out-a-valid-page', not bad, F.where(bad[0][0]) if bad else F.where(),
+               'every return that can be non-negative is reached with the page valid' if not bad else
+               f'`{F.s(bad[0][0])}` (value {bad[0][1]}) is reachable with the page in *{[p["name"] for p in F.params if p["id"] == pid][0]} not '
+               'valid: a fetch that found nothing (and may have moved the sync buffer) came after the fetch that filled it')
+    for F in fns:
+        pv = _page_vars(F)
+        if not pv:
+            continue
+        if P.key(F) in results:
+            uses = results[P.key(F)][1]
+        else:
+            if not any(F.ex[c]['callee'].get('d') in PAGE_READERS for c in F.calls()):
+                continue
+            uses, _ = analyse(F, pv)
+        # page parameters of pure readers (no fetch inside) are the caller's business
+        params_ = {p['id'] for p in F.params}
+        for (e, vid), st in sorted(uses.items(), key=lambda kv: F.ex[kv[0][0]].get('loc') or [0, 0]):
+            if vid in params_ and P.key(F) not in fetchers:
+                continue
+            if vid in params_ and not any(True for _ in [0]):
+                continue
+            ok = False not in st
+            if vid in params_:
+                # on entry the caller's page is valid by the caller's obligation; only uses after an invalidating call count
+                pass
+            n += 1
+            chk.ob(rule, F.name, f'page-valid-at-use@{F.loc(e)}', ok, F.where(e),
+                   f'`{F.s(e)[:50]}`: the page is the one libogg last found on every path' if ok else
+                   f'`{F.s(e)[:50]}` is reachable after a call that may have moved the sync buffer without a successful fetch in '
+                   'between: the page points into memory libogg has recycled')
     return n
